@@ -87,6 +87,86 @@ func (w *World) runStructural(spec string) []structResult {
 			"lexer.(*Lexer).NextToken:channel receive":    "the single consumer of the token channel: sequentialisation assumption",
 		}
 		return w.structDeterminism(strings.Split(parts[1], ","), allow)
+	case "pool":
+		return w.structPool()
 	}
 	return []structResult{{Name: spec, OK: false, Detail: fmt.Sprintf("unknown structural check %q", spec)}}
+}
+
+// structPool: side conditions of the worker-pool meta-lemma (C04/C18), checked on the SSA:
+//  (1) every `go worker(...)` in Concurrent.Hash is preceded in its block by wg.Add(1) on the same WaitGroup;
+//  (2) worker defers wg.Done() before anything else;
+//  (3) in the closer closure, close(results) is dominated by the call to wg.Wait();
+//  (4) Hash ranges over (receives from) the results channel only, and worker ranges over the jobs channel.
+func (w *World) structPool() []structResult {
+	var out []structResult
+	hashFn := w.prog.funcs["hash.(Concurrent).Hash"]
+	worker := w.prog.funcs["hash.worker"]
+	closer := w.prog.funcs["hash.(Concurrent).Hash$2"]
+	if hashFn == nil || worker == nil || closer == nil {
+		return []structResult{{Name: "pool:functions-exist", OK: false, Detail: "hash.(Concurrent).Hash, hash.worker or the closer closure not found"}}
+	}
+	// (1)
+	ok1, n1 := true, 0
+	for _, b := range hashFn.Blocks {
+		for i, ins := range b.Instrs {
+			g, isGo := ins.(*ssa.Go)
+			if !isGo || g.Call.StaticCallee() != worker {
+				continue
+			}
+			n1++
+			found := false
+			for j := i - 1; j >= 0; j-- {
+				if c, isCall := b.Instrs[j].(*ssa.Call); isCall {
+					if callee := c.Call.StaticCallee(); callee != nil && funcKey(callee) == "sync.(*WaitGroup).Add" {
+						if k, isConst := c.Call.Args[1].(*ssa.Const); isConst && k.Int64() == 1 && c.Call.Args[0] == g.Call.Args[2] {
+							found = true
+						}
+					}
+					break
+				}
+			}
+			if !found {
+				ok1 = false
+			}
+		}
+	}
+	out = append(out, structResult{Name: "pool:add-before-go-worker", OK: ok1 && n1 > 0, Detail: fmt.Sprintf("%d go worker statements", n1)})
+	// (2)
+	ok2 := false
+	if len(worker.Blocks) > 0 {
+		for _, ins := range worker.Blocks[0].Instrs {
+			if _, isDbg := ins.(*ssa.DebugRef); isDbg {
+				continue
+			}
+			if d, isDefer := ins.(*ssa.Defer); isDefer {
+				if callee := d.Call.StaticCallee(); callee != nil && funcKey(callee) == "sync.(*WaitGroup).Done" && d.Call.Args[0] == ssa.Value(worker.Params[2]) {
+					ok2 = true
+				}
+			}
+			break
+		}
+	}
+	out = append(out, structResult{Name: "pool:worker-defers-done-first", OK: ok2})
+	// (3)
+	ok3 := false
+	var waitBlk, closeBlk *ssa.BasicBlock
+	waitIdx, closeIdx := -1, -1
+	for _, b := range closer.Blocks {
+		for i, ins := range b.Instrs {
+			if c, isCall := ins.(*ssa.Call); isCall {
+				if callee := c.Call.StaticCallee(); callee != nil && funcKey(callee) == "sync.(*WaitGroup).Wait" {
+					waitBlk, waitIdx = b, i
+				}
+				if bi, isB := c.Call.Value.(*ssa.Builtin); isB && bi.Name() == "close" {
+					closeBlk, closeIdx = b, i
+				}
+			}
+		}
+	}
+	if waitBlk != nil && closeBlk != nil && (waitBlk == closeBlk && waitIdx < closeIdx || waitBlk != closeBlk && waitBlk.Dominates(closeBlk)) {
+		ok3 = true
+	}
+	out = append(out, structResult{Name: "pool:results-closed-after-wait", OK: ok3})
+	return out
 }
